@@ -718,5 +718,8 @@ def check(rep, tier):
     display_obligations(rep)
     expected_obligations(rep)
     validated_obligation(rep)
+    # a suggestion is validated by re-parsing: the verdict of that re-parse is the driver's (C05.drv.*) only under the driver's precondition at this call site
+    from contracts import C05_driver
+    C05_driver.callsite_obligations(rep, prefix='C19.validated.stream')
     bounded(rep, tier)
     rep.notes.append('Position arithmetic proved per iteration; suggestion sources checked exhaustively; see known findings.')
